@@ -8,6 +8,7 @@ import (
 	"os/exec"
 	"path/filepath"
 	"strings"
+	"sync"
 	"testing"
 	"time"
 
@@ -294,4 +295,107 @@ func runC20(c c20Case, st *hx.Stats) error {
 func TestC20Tools(t *testing.T) {
 	st := hx.NewStats("C20", "tools")
 	hx.RunProp(t, st, genC20, runC20, hx.PropOpts{})
+}
+
+// ---- C20 races for one output path ---------------------------------------------------------------------------
+//
+// "Never overwrites an existing output file" also when the file comes into existence while the tool starts: two runs
+// (different inputs) started together on the same output path. At most one may report success, and if one does, the
+// file is exactly its output. Both succeeding means one silently wrote over the other's file.
+
+type c20RaceCase struct {
+	Seed    uint64 `json:"seed"`
+	Rounds  int    `json:"rounds"`
+	SecA    int    `json:"sectors_a"`
+	SecB    int    `json:"sectors_b"`
+	Runners int    `json:"runners"`
+}
+
+func runC20Race(c c20RaceCase, st *hx.Stats) error {
+	tmp, err := hx.Scratch("c20race")
+	if err != nil {
+		return err
+	}
+	defer os.RemoveAll(tmp)
+	key := []byte("00112233445566778899aabbccddeeff")
+	if err := os.WriteFile(filepath.Join(tmp, "k.dkey"), key, 0o644); err != nil {
+		return err
+	}
+	regions := []refcrypt.Region{{Start: 0, End: 2}, {Start: 4, End: 6}}
+	var inputs []string
+	var plains [][]byte
+	for i := 0; i < c.Runners; i++ {
+		sec := c.SecA
+		if i%2 == 1 {
+			sec = c.SecB
+		}
+		data := hx.PRFBytes(c.Seed+uint64(i), 0, sec*2048)
+		copy(data, refcrypt.EncodeTable(regions))
+		p := filepath.Join(tmp, fmt.Sprintf("in%d.iso", i))
+		if err := os.WriteFile(p, data, 0o644); err != nil {
+			return err
+		}
+		kb, _ := hex.DecodeString(string(key))
+		tab := refcrypt.Table{Plain: regions, Bytes: 8 + 8*len(regions)}
+		a, _ := refcrypt.Plaintext(data, kb, tab, true, false)
+		b, _ := refcrypt.Plaintext(data, kb, tab, true, true)
+		inputs = append(inputs, p)
+		plains = append(plains, a, b)
+	}
+	both := 0
+	for round := 0; round < c.Rounds; round++ {
+		out := filepath.Join(tmp, fmt.Sprintf("out%d.iso", round))
+		codes := make([]int, c.Runners)
+		errs := make([]error, c.Runners)
+		start := make(chan struct{})
+		var wg sync.WaitGroup
+		for i := 0; i < c.Runners; i++ {
+			wg.Add(1)
+			go func(i int) {
+				defer wg.Done()
+				<-start
+				codes[i], _, errs[i] = runTool(tmp, nil, "decrypt", "redump", inputs[i], filepath.Join(tmp, "k.dkey"), out)
+			}(i)
+		}
+		close(start)
+		wg.Wait()
+		ok := 0
+		winner := -1
+		for i := range codes {
+			if errs[i] != nil {
+				return errs[i]
+			}
+			if codes[i] == 0 {
+				ok++
+				winner = i
+			}
+		}
+		if ok > 1 {
+			return hx.Failf("never-overwrites", "round %d: %d of %d runs started together on the same new output path reported success: one wrote over the file another had created", round, ok, c.Runners)
+		}
+		if ok == 1 {
+			got, err := os.ReadFile(out)
+			if err != nil {
+				return hx.Failf("output-exact", "round %d: run %d reported success but the output cannot be read: %v", round, winner, err)
+			}
+			if !bytes.Equal(got, plains[2*winner]) && !bytes.Equal(got, plains[2*winner+1]) {
+				return hx.Failf("output-exact", "round %d: run %d reported success, but the output (%d bytes) is not its plaintext", round, winner, len(got))
+			}
+			both++
+		}
+	}
+	st.Label(fmt.Sprintf("runners=%d", c.Runners))
+	if both > 0 {
+		st.NT(fmt.Sprintf("%d|%d|%d|%d", c.Seed, c.Runners, c.SecA, c.SecB))
+	}
+	st.Sample(c)
+	return nil
+}
+
+func TestC20Race(t *testing.T) {
+	st := hx.NewStats("C20", "race")
+	hx.RunProp(t, st, func(t *rapid.T) c20RaceCase {
+		return c20RaceCase{Seed: rapid.Uint64Range(1, 1<<40).Draw(t, "seed"), Rounds: rapid.IntRange(4, 10).Draw(t, "rounds"),
+			SecA: rapid.IntRange(8, 64).Draw(t, "a"), SecB: rapid.IntRange(8, 96).Draw(t, "b"), Runners: rapid.SampledFrom([]int{2, 2, 3, 4}).Draw(t, "runners")}
+	}, runC20Race, hx.PropOpts{})
 }
